@@ -555,6 +555,21 @@ def c17_s(draw, pid, tier, opts=None):
                     ["U", cid, "pre", "pre client"], ["P", cid, "+x alice pw"]]
             for s in draw(st.lists(st.sampled_from([x[0] for x in services] or ["none.ex"]), max_size=3)):
                 pre.append(["X", cid, s, draw(st.sampled_from(["OK", "OK alice", "AGAIN x"])), "cur"])
+    if draw(st.booleans()) and (full or pre):
+        # the clients seen before the reload were asked about the services and are gone before the answers came
+        # (disconnected, registered elsewhere, re-announced, refused by one service): nobody waits for a dropped service
+        if not pre:
+            for cid in (1, 2)[:draw(st.integers(1, 2))]:
+                pre += [["C", cid, "10.9.9.9", 1111], ["N", cid, "pre.example.org"], ["u", cid, "pre"], ["n", cid, "Pre%d" % cid],
+                        ["U", cid, "pre", "pre client"], ["P", cid, "+x alice pw"]]
+        for cid in sorted({e[1] for e in pre if e[0] == "C"}):
+            how_ = draw(st.sampled_from(["D", "T", "C", "NO", "D"]))
+            if how_ == "C":
+                pre += [["C", cid, "10.9.9.8", 1112]]
+            elif how_ == "NO" and services:
+                pre += [["X", cid, draw(st.sampled_from(services))[0], "NO go away", "cur"]]
+            pre += [[draw(st.sampled_from(["D", "T"])) if how_ in ("C", "NO") else how_, cid]]
+        kinds = kinds + ["clients_left_unanswered"]
     # probes: clients touching every service and rule of the final table
     probes = []
     final_svcs = [s[0] for s in confs[-1]["services"]]
